@@ -300,7 +300,7 @@ LEVEL_TEXT_ADDENDA = {
            "earlier call asserted is left on the solver's stack (R-PUSH-POP, R-SCOPED-ASSERT); every verdict returned by check_sat "
            "is the result of a check() made in the same call (R-CHECK-FRESH). The truth tables of the logical combinators (R-FOL-TABLE): a wrong table also excludes valid schedules. An optional constraint is asserted as Implies(applied, body), never more (R-APPLIED). Indicator, objective and resource constructors assert definitions only - the one equation of the indicator variable or the whole assertion list of a defining helper (R-OWN-EXACT); indicator constraints, optional-task rules and buffer accesses are asserted as documented and no tighter (R-IND-CONSTRAINT, R-OPT-RULES, R-BUF-REGISTER); every group R-STREAM-EXACT classifies is decided by its rule in this check (R-DRAIN, R-HORIZON, R-WORK-AMOUNT, R-PAIRWISE, R-BUF-ENCODING, R-WEIGHTED).",
     "C06": " Also: a test of a time against a constant is a scheduled-ness test and must have the threshold `t >= 0` / `t <= -1`; "
-           "the work-amount assertion is under the scheduled guard (R-WORK-AMOUNT).",
+           "the work-amount assertion is under the scheduled guard (R-WORK-AMOUNT). The premise of the exemption of ObjectiveMinimizeFlowtimeSingleResource from R-SCHED-GUARD is decided: every per-task implication has `start >= lower bound` in its antecedent.",
     "C07": " Also: with z3.Optimize every objective is handed to the handle in its own direction, the equivalent weighted one in "
            "weight mode and each declared one otherwise (R-OBJ-HANDED); the makespan objective is the horizon variable, which bounds "
            "every task end (R-HORIZON). The objective variable of every built-in objective is defined by the schedule as an equality, not merely bounded (R-IND-DEF, R-MINMAX); the bound the incremental loop takes as a proof of optimality is written only by an indicator's own constructor and Objective.__init__ (R-BOUND-PROVENANCE). With a user horizon exactly `_horizon <= horizon` is asserted (R-HORIZON, exact): the variable the makespan objective minimises stays free below the bound. The stream of build_equivalent_weighted_objective is the two definitions only (R-WEIGHTED).",
@@ -310,29 +310,29 @@ LEVEL_TEXT_ADDENDA = {
            "semantically over (count, n, size).",
     "C11": " Also: the stored busy pair is tied to the task span with delay-in / early-out (R-BUSY-BIND), every task end is "
            "asserted <= the horizon variable (R-HORIZON), an unscheduled optional task has start, end and duration pinned to its "
-           "negative point (R-SET-ASSERTIONS). The part of a unit worker's name before the marker is the cumulative worker's own name, unchanged (R-MARKER). Every task class asserts start >= 0 on every parameter combination (R-TASK-OBLIG): the reporters' `busy >= 0` test means 'assigned' only then.",
+           "negative point (R-SET-ASSERTIONS). The part of a unit worker's name before the marker is the cumulative worker's own name, unchanged (R-MARKER). Every task class asserts start >= 0 on every parameter combination (R-TASK-OBLIG): the reporters' `busy >= 0` test means 'assigned' only then. R-REPORT-READONLY (see C09); a horizon the problem constructor computes itself is asserted and an integer (R-HORIZON).",
     "C12": " Also: answering methods assert only inside pushed scopes and pop them all (R-SCOPED-ASSERT, R-PUSH-POP), an "
            "unscheduled task has one representation (R-SET-ASSERTIONS), verdicts are fresh (R-CHECK-FRESH), and nothing beyond the "
            "documented groups is asserted at initialisation (R-STREAM-EXACT). Every task's own obligations are asserted on every parameter combination (R-TASK-OBLIG): the enumeration walks exactly the valid timings. The rules R-STREAM-EXACT hands the groups of initialize() to are run in this check as well (R-DRAIN, R-HORIZON, R-WORK-AMOUNT, R-PAIRWISE, R-BUF-ENCODING, R-WEIGHTED).",
     "C13": " Also: R-SCOPED-ASSERT, the blocking clause (R-BLOCK-CLAUSE), a fresh solver handle on every initialize() "
-           "(R-OPT-WIRING) and fresh verdicts (R-CHECK-FRESH). Solver methods do not modify the problem's registries in place (R-SOLVER-READONLY: pop / clear / update / ...).",
+           "(R-OPT-WIRING) and fresh verdicts (R-CHECK-FRESH). Solver methods do not modify the problem's registries in place (R-SOLVER-READONLY: pop / clear / update / ...). export_to_smt2 calls nothing but the serialiser on the solver handle (R-SMT-SAME-HANDLE).",
     "C14": " Also: no accumulator is read inside the loop that fills it (R-ORDER-PREFIX); no process-wide state: module-level "
            "objects built by a call and used in functions, class attributes written at run time, `global` statements "
-           "(R-NO-MODULE-STATE). The sorting network of the concurrent buffer, a position-dependent helper, is a complete sort (R-SORT-NET). Nothing in the encoding phase is ordered by name (R-NAME-ORDER: sorted / min / max / .sort over registry keys or items, .name, key functions reading .name).",
-    "C15": " Also: R-OBJ-HANDED (see C07). R-BOUND-PROVENANCE (see C07). R-WEIGHTED decides the whole assertion stream of build_equivalent_weighted_objective (an extra assertion there exists only in the configurations that build the weighted objective).",
+           "(R-NO-MODULE-STATE). The sorting network of the concurrent buffer, a position-dependent helper, is a complete sort (R-SORT-NET). Nothing in the encoding phase is ordered by name (R-NAME-ORDER: sorted / min / max / .sort over registry keys or items, .name, key functions reading .name). No time of a possibly unscheduled task is read without the scheduled guard - it is -task_number, the declaration rank (R-SCHED-GUARD; its recorded findings are findings of this property too). Every constant name carries a literal tag of its kind.",
+    "C15": " Also: R-OBJ-HANDED (see C07). R-BOUND-PROVENANCE (see C07). R-WEIGHTED decides the whole assertion stream of build_equivalent_weighted_objective (an extra assertion there exists only in the configurations that build the weighted objective). A bound an indicator gives itself is one of those that follow from a definition (table: utilisation (0, 100)).",
     "C16": " Also: only `indent` and the exclusion of `problem` may be passed to the JSON dump; the exported SMT-LIB stack is the "
-           "problem only if nothing is left on it (R-PUSH-POP, R-SCOPED-ASSERT). add_from_json hands the whole document unchanged to the validator of the class its type entry names (R-JSON-READ). No custom serializer, computed field, dump override or excluded field in the MRO of the task and cost function classes (R-JSON-FIELDS); every free name read in excel_io / solution / base / problem is bound (R-NAMES-RESOLVE).",
+           "problem only if nothing is left on it (R-PUSH-POP, R-SCOPED-ASSERT). add_from_json hands the whole document unchanged to the validator of the class its type entry names (R-JSON-READ). No custom serializer, computed field, dump override or excluded field in the MRO of the task and cost function classes (R-JSON-FIELDS); every free name read in excel_io / solution / base / problem is bound (R-NAMES-RESOLVE). Distinct constants have distinct, kind-tagged names (R-NAME-INJECTIVE: the SMT-LIB text parses only then); R-REPORT-READONLY for the Excel exporter.",
     "C17": " Also: the task-view bar is (start, duration) and duration == end - start by the way build_solution extracts them "
-           "(R-EXTRACT). The renderers' `if not solution` rejection is a presence test: no class the argument can hold defines __bool__ or __len__ (R-PRESENCE-TEST). Every free name read in a function of plotter.py / solution.py is bound at module level or builtin (R-NAMES-RESOLVE, from the compiler's symbol tables).",
+           "(R-EXTRACT). The renderers' `if not solution` rejection is a presence test: no class the argument can hold defines __bool__ or __len__ (R-PRESENCE-TEST). Every free name read in a function of plotter.py / solution.py is bound at module level or builtin (R-NAMES-RESOLVE, from the compiler's symbol tables). R-REPORT-READONLY; the reported horizon the renderers count periods with is an asserted integer (R-HORIZON).",
     "C18": " Also: no rejection test reads the busy dict of a possibly cumulative resource itself (R-UNION-EXH on rejection tests).",
     "C19": " Also: the reader side on the extracted IR of solve(): every mapped label of the unsat core is printed, only `label in "
            "map` and a 'not already listed' test may filter (R-CORE-COMPLETE); a constraint asserts into its own list only "
            "(R-OWN-ASSERTIONS).",
     "C01": " Also: the constraint system is built lazily by the first answering call, never by the solver's constructor (R-INIT-ONCE), and a task declared under an existing name is rejected, not substituted (R-DUP-NAME).",
-    "C02": " Also: the assignment a resource reports is the model value of the stored busy pair, listed exactly when the task lists the resource (R-VIEW-SYMMETRY); R-INIT-ONCE and R-DUP-NAME for the three resource registries as in C01. Each unit worker of a cumulative worker carries the element at its position of _distribute_p_over_n(productivity | cost, size), unchanged; that helper returns `size` elements (length lemma decided on its body). Worker, cumulative worker and selection constructors assert nothing of their own (R-OWN-EXACT).",
+    "C02": " Also: the assignment a resource reports is the model value of the stored busy pair, listed exactly when the task lists the resource (R-VIEW-SYMMETRY); R-INIT-ONCE and R-DUP-NAME for the three resource registries as in C01. Each unit worker of a cumulative worker carries the element at its position of _distribute_p_over_n(productivity | cost, size), unchanged; that helper returns `size` elements (length lemma decided on its body). Worker, cumulative worker and selection constructors assert nothing of their own (R-OWN-EXACT). Every task class asserts start >= 0 (R-TASK-OBLIG): the reporters' `busy >= 0` test means 'assigned' only then.",
     "C03": " Also: R-INIT-ONCE and R-DUP-NAME (constraint registry) as in C01: what is declared before solve() is what is asserted, and no declared constraint is silently replaced under its name.",
     "C04": " Also: R-INIT-ONCE and R-DUP-NAME (constraint registry) as in C01/C03.",
-    "C09": " Also: util.clean_buffer_levels keeps level k+1 exactly when it keeps change time k, by one selection that reads the times only (R-CLEAN-PAIRED); the bubble sorter makes at least len - 1 full sweeps. The sorter is also decided when written inline (nested loops over a working copy), and sort_no_duplicates whatever way its loops are written.",
+    "C09": " Also: util.clean_buffer_levels keeps level k+1 exactly when it keeps change time k, by one selection that reads the times only (R-CLEAN-PAIRED); the bubble sorter makes at least len - 1 full sweeps. The sorter is also decided when written inline (nested loops over a working copy), and sort_no_duplicates whatever way its loops are written. Renderers and exporters do not modify anything reachable from the solution they are given (R-REPORT-READONLY).",
 }
 for _k, _v in LEVEL_TEXT_ADDENDA.items():
     PROPERTIES[_k]["level_text"] = PROPERTIES[_k]["level_text"] + _v
